@@ -9,14 +9,16 @@ import (
 	"strconv"
 )
 
-// parseInt parses bytes as a 64-bit signed decimal integer.
+// parseIntOk parses bytes as a 64-bit signed decimal integer.
 //
 // Reimplementing this method avoids the overhead of copying the byte array to
 // a string for use with strconv.ParseInt, and also hard-codes the fast path.
 //
-// Panics on invalid input, since the tokenizer is supposed to guarantee
-// valid input.
-func parseInt(s []byte) int64 {
+// The second result is false if the value does not fit in an int64.
+//
+// Panics on otherwise invalid input, since the tokenizer is supposed to
+// guarantee valid input.
+func parseIntOk(s []byte) (int64, bool) {
 	if len(s) == 0 {
 		panic("Empty string can't be parsed as int.")
 	}
@@ -36,17 +38,39 @@ func parseInt(s []byte) int64 {
 		if c < '0' || c > '9' {
 			panic("invalid character in int string " + string(s))
 		}
+		if n > (1<<64-1)/10 {
+			return 0, false
+		}
 		n1 := 10*n + uint64(c-'0')
 		if n1 < n || n1 > cutoff || (!neg && n1 == cutoff) {
-			panic("integer overflow parsing " + string(s))
+			return 0, false
 		}
 		n = n1
 	}
 	if neg {
-		return -int64(n)
+		return -int64(n), true
 	} else {
-		return int64(n)
+		return int64(n), true
 	}
+}
+
+// parseInt parses bytes as a 64-bit signed decimal integer.
+//
+// Panics on invalid input, since the tokenizer is supposed to guarantee
+// valid input.
+func parseInt(s []byte) int64 {
+	n, ok := parseIntOk(s)
+	if !ok {
+		panic("integer overflow parsing " + string(s))
+	}
+	return n
+}
+
+// floatInRange returns true if the bytes can be parsed as a finite 64-bit
+// float.
+func floatInRange(s []byte) bool {
+	_, err := strconv.ParseFloat(string(s), 64)
+	return err == nil
 }
 
 // parseFloat parses bytes as a 64-bit float.
@@ -70,7 +94,14 @@ func parseFloat(s []byte) float64 {
 func parseFloat32(s []byte) float32 {
 	f, err := strconv.ParseFloat(string(s), 32)
 	if err != nil {
-		panic(err)
+		if ne, ok := err.(*strconv.NumError); !ok || ne.Err != strconv.ErrRange {
+			panic(err)
+		}
+		// Out of range for a 32-bit float: saturate.
+		if f > 0 {
+			return math.MaxFloat32
+		}
+		return -math.MaxFloat32
 	}
 	return float32(f)
 }
